@@ -12,7 +12,7 @@
 From Coq Require Import ZArith List Bool String.
 From FpyV Require Import Num.RealFloat Num.Float Num.CtxDef Num.Out
   Lang.Syntax Lang.Values Lang.Sem Lang.NumInst
-  Analysis.ClassLattice Analysis.Instr Analysis.FactClass.
+  Analysis.ClassLattice Analysis.Instr Analysis.FactClass Analysis.FactReach Analysis.FactConst.
 Import ListNotations.
 Open Scope Z_scope.
 
@@ -48,25 +48,56 @@ Definition args_ok13 (f : afunc ann) (r : run13) : bool :=
   (Nat.eqb (List.length vs) (List.length (af_params f))) &&
   forallb (fun av => sat_cls (rep (fst (fst av))) (snd av)) (combine (af_params f) vs).
 
-Definition static13 (c : case13) : bool :=
-  let '(_, f, _) := c in check_class_func R_prov f.
+(* the verified checkers on the reported facts *)
+Definition static_class13 (c : case13) : bool :=
+  let '(_, f, _) := c in check_class_func R_prov (n_ctor okprov_numops) f.
+
+Definition static_reach13 (c : case13) : bool :=
+  let '(_, f, _) := c in check_reach_func (func_table f) f.
+
+(* constants: the facts the checker cannot derive are dropped first (prune_const_func);
+   the strict, proved checker must accept the rest *)
+Definition pruned13 (c : case13) : afunc ann :=
+  let '(P, f, _) := c in prune_const_func okprov_numops P f.
+
+Definition static_const13 (c : case13) : bool :=
+  let '(P, _, _) := c in check_const_func okprov_numops P (pruned13 c).
+
+Definition static13 (c : case13) : bool := static_class13 c && static_reach13 c && static_const13 c.
+
+(* (constant facts reported, constant facts certified) *)
+Definition const_stats13 (c : case13) : nat * nat :=
+  let '(_, f, _) := c in (nconst_f f, nconst_f (pruned13 c)).
+
+Definition ev_ok13 (T : ptable) (ev : event ann) : bool :=
+  ev_class_ok ev && ev_reach_okb T ev && ev_const_ok ev.
 
 Definition dyn_run13 (P : program) (f : afunc ann) (r : run13) : bool :=
   let m := model13 P f r in
   res_eqb (outcome13 m) (snd r) &&
-  (negb (args_ok13 f r) || forallb ev_class_ok (fst m)).
+  (negb (args_ok13 f r) || forallb (ev_ok13 (func_table f)) (fst m)).
 
 Definition dynamic13 (c : case13) : bool :=
   let '(P, f, runs) := c in forallb (dyn_run13 P f) runs.
 
 Definition check13 (c : case13) : bool := static13 c && dynamic13 c.
 
-(* diagnostics for a failing case: which part failed, what the model says *)
-Definition diag13 (c : case13) : bool * list (bool * bool * res cval) :=
+(* the four verdicts of a case: class, reach, const, dynamic *)
+Definition verdict13 (c : case13) : bool * bool * bool * bool :=
+  (static_class13 c, static_reach13 c, static_const13 c, dynamic13 c).
+
+Definition all_ok13 (v : bool * bool * bool * bool) : bool :=
+  let '(a, b, c, d) := v in a && b && c && d.
+
+(* diagnostics for a failing case: the three static verdicts; per run: outcome agrees,
+   class / reach / const claims hold on the model trace, the model's outcome *)
+Definition diag13 (c : case13) : (bool * bool * bool) * list (bool * (bool * bool * bool) * res cval) :=
   let '(P, f, runs) := c in
-  (static13 c,
+  ((static_class13 c, static_reach13 c, static_const13 c),
    map (fun r => let m := model13 P f r in
-                 (res_eqb (outcome13 m) (snd r), forallb ev_class_ok (fst m), outcome13 m)) runs).
+                 (res_eqb (outcome13 m) (snd r),
+                  (forallb ev_class_ok (fst m), forallb (ev_reach_okb (func_table f)) (fst m), forallb ev_const_ok (fst m)),
+                  outcome13 m)) runs).
 
 (* ---------------------------------------------------------------- transfer tables of value_class.py *)
 Inductive table13 :=
